@@ -615,24 +615,27 @@ impl Relations {
 
     /// Insert a new entry at the given index
     pub fn insert(&mut self, idx: usize, entry: Entry) {
-        let is_empty = !self.0.children_with_tokens().any(|n| n.kind() == COMMA);
         let (position, new_children) = if let Some(current_entry) = self.entries().nth(idx) {
-            let to_insert: Vec<NodeOrToken<GreenNode, GreenToken>> = if idx == 0 && is_empty {
-                vec![entry.0.green().into()]
-            } else {
-                vec![
-                    entry.0.green().into(),
-                    NodeOrToken::Token(GreenToken::new(COMMA.into(), ",")),
-                    NodeOrToken::Token(GreenToken::new(WHITESPACE.into(), " ")),
-                ]
-            };
+            // in front of an existing entry: always followed by a separator
+            let to_insert: Vec<NodeOrToken<GreenNode, GreenToken>> = vec![
+                entry.0.green().into(),
+                NodeOrToken::Token(GreenToken::new(COMMA.into(), ",")),
+                NodeOrToken::Token(GreenToken::new(WHITESPACE.into(), " ")),
+            ];
 
             (current_entry.0.index(), to_insert)
         } else {
             let child_count = self.0.children_with_tokens().count();
+            // appending: a separator is needed unless nothing (or a comma) precedes
+            let needs_separator = self
+                .0
+                .children_with_tokens()
+                .filter(|n| n.kind() != WHITESPACE && n.kind() != NEWLINE)
+                .last()
+                .map_or(false, |n| n.kind() != COMMA);
             (
                 child_count,
-                if idx == 0 {
+                if !needs_separator {
                     vec![entry.0.green().into()]
                 } else {
                     vec![
